@@ -107,6 +107,13 @@ def window_opts(rec, rng):
     """selection variants: a time window on file boundaries, or one kind only"""
     rf = sorted(f["ms"] for f in rec.files if f["kind"] == "rf")
     r = rng.random()
+    sub = [t for t in rf[1:] if t % 1000]
+    if sub and r < 0.6:
+        # a bound that is not a whole second, exactly on a file time (the file is inside the inclusive window)
+        t = rng.choice(sub)
+        if rng.random() < 0.6:
+            return dict(starttime_ms=rng.choice([None, rf[0]]), endtime_ms=t)
+        return dict(starttime_ms=t, endtime_ms=None)
     if r < 0.5 and len(rf) >= 2:
         i = rng.randrange(1, len(rf))
         j = rng.randrange(i, len(rf))
@@ -282,7 +289,8 @@ def replay(ctx, path):
     rr = sc["rerun"]
     work = os.path.join(ctx.work, "mir")
     os.makedirs(work, exist_ok=True)
-    rec = drv.Recording(digital_rf, os.path.join(work, "rec"), rr["rec"]["seed"], nch=rr["rec"]["nch"], name=rr["rec"]["name"])
+    rec = drv.Recording(digital_rf, os.path.join(work, "rec"), rr["rec"]["seed"], nch=rr["rec"]["nch"], name=rr["rec"]["name"],
+                        fc_ms=rr["rec"].get("fc_ms"))
     sc2, _ = drv.run_history(digital_rf, rec, work, sc["name"], sc["opts"], [tuple(x) for x in rr["steps"]],
                              crash_at=rr.get("crash_at"), crash_rule=tuple(rr["crash_rule"]) if rr.get("crash_rule") else None,
                              desc=sc.get("desc", ""))
@@ -411,7 +419,9 @@ def run(ctx):
     recs = []
     for i in range(nrec):
         nch = 1 if i % 3 != 2 else 2
-        recs.append(drv.Recording(digital_rf, os.path.join(work, "rec%d" % i), rng.randrange(2**31), nch=nch, name="rec%d" % i))
+        # (the first recording has half-second files: file names and window bounds that are not whole seconds)
+        recs.append(drv.Recording(digital_rf, os.path.join(work, "rec%d" % i), rng.randrange(2**31), nch=nch, name="rec%d" % i,
+                                  fc_ms=500 if i == 0 else None))
     ctx.extra["recordings"] = [r.desc for r in recs]
     nrand = ctx.pick(2, 4)
     sample_n = ctx.pick(4, 10)
